@@ -123,6 +123,7 @@ type FnTrans struct {
 	constElemSort map[string]string // const global name -> element sort
 	constDefs     map[string]bool   // defined names whose term is built from const-slice names
 	fnNames       map[string]bool   // names of the function's variables (stale-contract detection)
+	idxNeighbours map[string]bool   // second-rank instantiation candidates (skolem index + 1)
 	staleClauses  []string          // clauses that mention a name the function no longer has
 	globalsUsed map[string]bool
 }
